@@ -678,6 +678,8 @@ def run(cx, tier='quick'):
     from .helpers import check_path_to_string, check_ident_or_index
     check_path_to_string(cx, rep)
     check_ident_or_index(cx, rep)
+    from .scope import check_scopes
+    check_scopes(cx, rep, ['::debug::'])
     rep.floor('SUM-DEBUG', 30, '(37 cases today)')
     rep.assumptions += ['core::fmt::DebugStruct/DebugTuple/DebugMap render the call sequence as documented, in compact and alternate mode',
                         '#[derive(Debug)] is specified as debug_struct(Name).field("f", &self.f)… / debug_tuple(Name).field(&self.0)… / write_str(Variant)',
